@@ -1,34 +1,83 @@
 /-
-C10 at the level of the reader: with max_seq_len = N ≥ 1 (and any sort flag, no depth limit) what is printed reads back as
-the value with every container cut to its first N elements (and dict entries in sorted order when sorting is on).
+C10 / C11 at the level of the reader: with max_seq_len = N ≥ 1, any depth limit and any sort flag, what is printed reads
+back as the shown value: every container cut to its first N elements, dict entries in sorted order when sorting is on, every
+node at the depth cut replaced by a placeholder of its own type.
 -/
 import PP.Proofs.ShownRd
 import PP.Props.C01b
 import PP.Props.Limits
-namespace PP.C10
-open PP Doc Pr Tok
+namespace PP
+open Doc Pr Tok
 
-/-- **C10.output_reads_back** — for every value of the readable fragment (built-ins, subclass instances, call-style objects,
-comments anywhere), `max_seq_len = N ≥ 1` or None, `sort_dict_keys` on or off, no depth limit, at any width / ribbon /
+mutual
+/-- the readable fragment has no timedelta (whose fields are cut one level down, which `shown` does not express) -/
+theorem inRd_noTd : (v : PyVal) → inRd v = true → noTd v = true
+  | .commented v _, h => by simp only [inRd, noTd] at *; exact inRd_noTd v h
+  | .trailing v _, h => by simp only [inRd, Bool.and_eq_true] at h; simp only [noTd]; exact inRd_noTd v h.1
+  | .seq _ _ xs, h => by simp only [inRd, Bool.and_eq_true] at h; simp only [noTd]; exact inRdL_noTd xs h.2
+  | .frozenset _ xs, h => by simp only [inRd, Bool.and_eq_true] at h; simp only [noTd]; exact inRdL_noTd xs h.2
+  | .dict _ kvs, h => by simp only [inRd, Bool.and_eq_true] at h; simp only [noTd]; exact inRdP_noTd kvs h.2
+  | .call _ a k, h => by
+      simp only [inRd, Bool.and_eq_true] at h; simp only [noTd, Bool.and_eq_true]; exact ⟨inRdL_noTd a h.1.2, inRdK_noTd k h.2⟩
+  | .timedelta _ _ _, h => by simp [inRd] at h
+  | .none, _ => rfl
+  | .ellipsis, _ => rfl
+  | .bool _, _ => rfl
+  | .int _ _ _, _ => rfl
+  | .float _ _ _ _ _, _ => rfl
+  | .str _ _ _, _ => rfl
+  | .opaque _, _ => rfl
+  | .ident _, _ => rfl
+  | .path _ _, _ => rfl
+theorem inRdL_noTd : (xs : List PyVal) → inRdL xs = true → noTdL xs = true
+  | [], _ => rfl
+  | v :: r, h => by
+      simp only [inRdL, Bool.and_eq_true] at h; simp only [noTdL, Bool.and_eq_true]; exact ⟨inRd_noTd v h.1, inRdL_noTd r h.2⟩
+theorem inRdK_noTd : (xs : List (Str × PyVal)) → inRdK xs = true → noTdK xs = true
+  | [], _ => rfl
+  | (k, v) :: r, h => by
+      simp only [inRdK, Bool.and_eq_true] at h; simp only [noTdK, Bool.and_eq_true]; exact ⟨inRd_noTd v h.1.2, inRdK_noTd r h.2⟩
+theorem inRdP_noTd : (xs : List (PyVal × PyVal)) → inRdP xs = true → noTdP xs = true
+  | [], _ => rfl
+  | (k, v) :: r, h => by
+      simp only [inRdP, Bool.and_eq_true] at h; simp only [noTdP, Bool.and_eq_true]
+      exact ⟨⟨inRd_noTd k h.1.1, inRd_noTd v h.1.2⟩, inRdP_noTd r h.2⟩
+end
+
+namespace Limits
+
+/-- **Limits.output_reads_back** — for every value of the readable fragment (built-ins, subclass instances, call-style objects,
+comments anywhere), `depth` = d or None, `max_seq_len` = N ≥ 1 or None, `sort_dict_keys` on or off, at any width / ribbon /
 indent: what `pformat` prints has — up to literal splitting — a token sequence that the reader of `Spec/Reader.lean` reads as
-`erase (shown ctx v)`, the value with every list / tuple / set / frozenset / dict at every level reduced to its first N
-elements (`shown_list_truncated` below spells out the list case; the truncation comments are comments, not tokens). -/
-theorem output_reads_back (s : Settings) (v : PyVal) (hw : wfVal v) (hin : inRd v = true)
-    (hd : s.depth = none) (hm : s.maxSeqLen ≠ some 0) :
+`erase (shown ctx v)`: the value with every list / tuple / set / frozenset / dict at every level reduced to its first N
+elements, dict entries in sorted order when sorting is on, and every node at the cut replaced by its placeholder — `name(...)`
+(the call of the type's name on Ellipsis), `[...]`, `{...}` (a list / set holding Ellipsis) or `(...)`, which Python reads as
+a parenthesised Ellipsis, not as a tuple. -/
+theorem output_reads_back (s : Settings) (v : PyVal) (hw : wfVal v) (hin : inRd v = true) (hm : s.maxSeqLen ≠ some 0) :
     ∃ ts, TEq (ctoks (sdocsM s v)) ts ∧
       parseV (need (shown s.ctx.norm v)) ts = some (erase (shown s.ctx.norm v), []) := by
   refine ⟨canonW s.ctx.norm.free (shown s.ctx.norm v) none, ?_, ?_⟩
   · have h1 := C03.output_tokens s v hw
-    have e := shown_ok v s.ctx.norm none (by intro e; exact hm e) (Or.inl hd)
+    have e := shown_ok v s.ctx.norm none (by intro e; exact hm e) (Or.inr (inRd_noTd v hin))
     rw [e] at h1
     exact h1
-  · exact C01.canon_reads_back' (shown s.ctx.norm v) (inRd_shown v s.ctx.norm ⟨hd, hm⟩ hin) s.ctx.norm.free ⟨rfl, rfl, rfl⟩ _ (Nat.le_refl _)
+  · exact C01.canon_reads_back' (shown s.ctx.norm v) (inRd_shown v s.ctx.norm hm hin) s.ctx.norm.free ⟨rfl, rfl, rfl⟩ _ (Nat.le_refl _)
+
+end Limits
+
+namespace C10
+
+/-- **C10.output_reads_back** — the truncation clause (no depth limit): see `Limits.output_reads_back`. -/
+theorem output_reads_back (s : Settings) (v : PyVal) (hw : wfVal v) (hin : inRd v = true)
+    (hm : s.maxSeqLen ≠ some 0) :
+    ∃ ts, TEq (ctoks (sdocsM s v)) ts ∧
+      parseV (need (shown s.ctx.norm v)) ts = some (erase (shown s.ctx.norm v), []) :=
+  Limits.output_reads_back s v hw hin hm
 
 /-- a list longer than the limit denotes exactly its first N elements (each shown under the same limits) -/
-theorem shown_list_truncated (ctx : Ctx) (hT : Trunc ctx) (xs : List PyVal) (n : Nat) (hm : ctx.maxSeqLen = some n)
-    (hlen : xs.length > n) :
+theorem shown_list_truncated (ctx : Ctx) (hz : ctx.depthZero = false) (xs : List PyVal) (n : Nat) (hm : ctx.maxSeqLen = some n)
+    (hn : n ≠ 0) (hlen : xs.length > n) :
     erase (shown ctx (.seq 0 none xs)) = .list (eraseL ((shownL ctx.nested xs).take n)) := by
-  have hn : n ≠ 0 := by intro e; rw [e] at hm; exact hT.2 hm
   have hl0 : (xs.length == 0) = false := by
     cases xs with
     | nil => simp at hlen
@@ -36,11 +85,11 @@ theorem shown_list_truncated (ctx : Ctx) (hT : Trunc ctx) (xs : List PyVal) (n :
   have hl1 : (xs.length == 1) = false := by
     have : xs.length ≠ 1 := by omega
     simpa using this
-  simp only [shown, hl0, hT.dz, Bool.false_eq_true, if_false, cutSeq, withTruncation, hm, hlen, if_true, erase, hl1, takeOpt,
+  simp only [shown, hl0, hz, Bool.false_eq_true, if_false, cutSeq, withTruncation, hm, hlen, if_true, erase, hl1, takeOpt,
     wrapNE, mkSeq, beq_self_eq_true]
 
 /-- a list within the limit denotes all its elements -/
-theorem shown_list_full (ctx : Ctx) (hT : Trunc ctx) (x : PyVal) (xs : List PyVal)
+theorem shown_list_full (ctx : Ctx) (hz : ctx.depthZero = false) (x : PyVal) (xs : List PyVal)
     (hlen : ∀ n, ctx.maxSeqLen = some n → (x :: xs).length ≤ n) :
     erase (shown ctx (.seq 0 none (x :: xs))) = .list (eraseL (shownL ctx.nested (x :: xs))) := by
   have hl0 : ((x :: xs).length == 0) = false := by simp
@@ -54,6 +103,32 @@ theorem shown_list_full (ctx : Ctx) (hT : Trunc ctx) (x : PyVal) (xs : List PyVa
       split
       · omega
       · rfl
-  simp only [shown, hl0, hT.dz, Bool.false_eq_true, if_false, cutSeq, hw, erase, wrapNE, mkSeq, beq_self_eq_true, if_true]
+  simp only [shown, hl0, hz, Bool.false_eq_true, if_false, cutSeq, hw, erase, wrapNE, mkSeq, beq_self_eq_true, if_true]
 
-end PP.C10
+end C10
+
+namespace C11
+
+/-- **C11.output_reads_back** — the depth clause: see `Limits.output_reads_back`. -/
+theorem output_reads_back (s : Settings) (v : PyVal) (hw : wfVal v) (hin : inRd v = true) (hm : s.maxSeqLen ≠ some 0) :
+    ∃ ts, TEq (ctoks (sdocsM s v)) ts ∧
+      parseV (need (shown s.ctx.norm v)) ts = some (erase (shown s.ctx.norm v), []) :=
+  Limits.output_reads_back s v hw hin hm
+
+/-- at the cut a non-empty list is the placeholder `[...]`, which denotes a list holding Ellipsis … -/
+theorem cut_list_denotes (ctx : Ctx) (hz : ctx.depthZero = true) (x : PyVal) (xs : List PyVal) :
+    erase (shown ctx (.seq 0 none (x :: xs))) = .list [.kw sEll] := by
+  simp [shown, hz, erase, phLit, identPh, sEll]
+
+/-- … a non-empty tuple is `(...)`, which Python reads as a parenthesised Ellipsis … -/
+theorem cut_tuple_denotes (ctx : Ctx) (hz : ctx.depthZero = true) (x : PyVal) (xs : List PyVal) :
+    erase (shown ctx (.seq 1 none (x :: xs))) = .kw sEll := by
+  simp [shown, hz, erase, phLit, identPh, sEll]
+
+/-- … an int is `int(...)`, the call of the type's name on Ellipsis -/
+theorem cut_int_denotes (ctx : Ctx) (hz : ctx.depthZero = true) (val : Int) (lit : Str) :
+    erase (shown ctx (.int none val lit)) = .call nmInt [.kw sEll] := by
+  simp [shown, hz, erase, phCall, identPh, sEll, builtin, nmInt, phName, isNameTok, isKwTok, sNone, sTrue, sFalse]
+
+end C11
+end PP
